@@ -1,4 +1,5 @@
-Require Import Base.Bytes Net.Frame Net.FrameProofs Net.Framed Net.FramedProofs Net.Concrete Props.C07.
+Require Import Base.Bytes Net.Frame Net.FrameProofs Net.Framed Net.FramedProofs Net.Concrete Net.ConvProofs Net.Async Net.AsyncProofs Net.AsyncConvProofs.
+Require Import Props.C07.
 Local Open Scope N_scope.
 Check c07_at_most_one_reply_written_first :
   forall packet ver_of is_keepalive version verify pong (p : packet),
@@ -19,7 +20,23 @@ Check c07_history_trace :
     filter (keep packet) (session packet parse ver_of is_keepalive version m verify pong fuel buf (tr ++ [Eof]))
       = concat (map (expected_frame packet parse ver_of is_keepalive version verify pong) fs) ++ [Ret RDisconnected].
 Check c07_pong_frames : pong_frame Compressed = [1; 3; 0; 0] /\ pong_frame Uncompressed = [4; 3; 0; 0].
+Check c07_caller_writes_do_not_matter :
+  forall (packet : Type) (parse : bytes -> res packet) (ver_of : packet -> option N)
+         (is_keepalive : packet -> bool) (version : N) (m : mode) (verify : bool) (pong : bytes),
+  forall ops buf tr,
+    map snd (filter (from_read packet) (conv packet parse ver_of is_keepalive version m verify pong ops buf tr))
+    = session packet parse ver_of is_keepalive version m verify pong (reads ops) buf tr.
+Check c07_replies_whole_under_cancellation_and_writes :
+  forall (packet : Type) (parse : bytes -> res packet) (ver_of : packet -> option N)
+         (is_keepalive : packet -> bool) (version : N) (m : mode) (verify : bool) (pong : bytes),
+  forall fuel c s rs ws cancels wsched acc done,
+    forallb no_fail ws = true ->
+    Inv packet parse ver_of is_keepalive version m verify pong c s ->
+    WInv packet is_keepalive pong s (done ++ acc) ->
+    conv_ok packet is_keepalive pong done (aconv packet parse ver_of is_keepalive version m verify pong fuel c s rs ws cancels wsched acc).
 Print Assumptions c07_at_most_one_reply_written_first.
 Print Assumptions c07_reply_iff_keepalive.
 Print Assumptions c07_history_trace.
 Print Assumptions c07_pong_frames.
+Print Assumptions c07_caller_writes_do_not_matter.
+Print Assumptions c07_replies_whole_under_cancellation_and_writes.
